@@ -267,10 +267,30 @@ def _accepted_variants(ctx, fx, per):
     return out
 
 
+def _generated_docs(ctx):
+    """documents whose result passes through hash-ordered collections: many style names, names equal up to case,
+    names with equal casefold / equal length (whatever a key function could collapse)"""
+    from builders import mini
+    rng = ctx.rng
+    out = []
+    pools = [["P1", "p1", "Heading 1", "heading 1", "HEADING 1", "Title", "TITLE"],
+             ["a", "b", "c", "d", "e", "f", "g", "h", "i", "j"],
+             ["Stra\u00dfe", "STRASSE", "strasse", "\u0130stanbul", "istanbul", "I\u0307stanbul"],
+             ["T%d" % i for i in range(40)]]
+    for k in range(ctx.n(8, 24)):
+        pool = pools[k % len(pools)]
+        # the whole pool first (all collisions present), random subsets afterwards
+        names = list(pool) if k < len(pools) else rng.sample(pool, min(len(pool), rng.randint(2, len(pool))))
+        rng.shuffle(names)
+        out.append((f"generated/styles{k}.docx", mini.docx([(n, f"text {i}") for i, n in enumerate(names)])))
+        out.append((f"generated/styles{k}.odt", mini.odt(names, [f"p{i}" for i in range(len(names))])))
+    return out
+
+
 def correspondence(ctx):
     fx = corpus.fixtures()
     broken = []
-    variants = _accepted_variants(ctx, fx, ctx.n(1, 8))
+    variants = _accepted_variants(ctx, fx, ctx.n(1, 8)) + _generated_docs(ctx)
     ctx.count("variants/accepted", len(variants))
     with tempfile.TemporaryDirectory(prefix="s2t_c06_") as td:
         fx_paths = [(rel, os.path.join(corpus.RES, rel)) for rel, d in fx if len(d) < (2_600_000 if ctx.thorough else 450_000)]
@@ -293,7 +313,7 @@ def search(ctx, broken):
     for b in broken:
         c = b.case or {}
         if b.kind == "correspondence" and c.get("kind") in ("seed", "repeat", "observe"):
-            if "~" in c.get("fixture", "") and c["fixture"] in _DATA:
+            if ("~" in c.get("fixture", "") or c.get("fixture", "").startswith("generated/")) and c["fixture"] in _DATA:
                 c["data_b64"] = base64.b64encode(_DATA[c["fixture"]]).decode()
             out.append(Violation(b.name.replace("c06.", "") + ":" + os.path.basename(c.get("fixture", "?")), b.detail, c))
     if out:
